@@ -737,6 +737,28 @@ func (h *Hist) actOvershoot() {
 	h.OpMintQuote(mode{}, 1, false, false, true)
 }
 
+// actHugeTotals: two quotes of 2^62 sat each are paid and minted (8 outputs of 2^59): the keyset's issued total reaches 2^63, more
+// than the SUM of the balance view can hold; then the balance is asked for in every way
+func (h *Hist) actHugeTotals() {
+	if h.cfg.maxMint != 0 {
+		return
+	}
+	for i := 0; i < 2; i++ {
+		q := h.OpMintQuote(mode{}, 1<<62, false, false, true)
+		if q == nil {
+			return
+		}
+		h.EnvSettle(q)
+		h.OpMint(mode{}, q, h.freshOutputs([]uint64{1 << 59, 1 << 59, 1 << 59, 1 << 59, 1 << 59, 1 << 59, 1 << 59, 1 << 59}), 0, false)
+		h.OpBalance(mode{})
+	}
+	h.nontrivial = true
+	h.OpInfo(mode{})
+	h.OpAdmin(adminReq{method: "total_balance"})
+	h.OpAdmin(adminReq{method: "issued_ecash"})
+	h.OpMintQuote(mode{}, 1, false, false, true)
+}
+
 // actInfoCycle: info is polled, value leaves through a melt, info is polled again
 func (h *Hist) actInfoCycle() {
 	h.OpInfo(mode{})
@@ -786,7 +808,11 @@ func (h *Hist) actAdmin(fees []uint) {
 func (h *Hist) act(name string, fees []uint) {
 	switch name {
 	case "overshoot":
-		h.actOvershoot()
+		if h.rng.Intn(4) == 0 {
+			h.actHugeTotals()
+		} else {
+			h.actOvershoot()
+		}
 	case "info-cycle":
 		h.actInfoCycle()
 	case "fund":
